@@ -1,4 +1,4 @@
-\* longer random sequences of whole calls over four keys of two documents, more configurations (-simulate)
+\* longer random sequences of whole calls over four keys of two documents, more configurations (-simulate, SimNext: one successor per call kind)
 CONSTANT Threads = {"t1"}
 CONSTANT Keys = {"k1", "k2", "k3", "k4"}
 CONSTANT CvKeys = {"k1", "k3"}
@@ -6,7 +6,7 @@ CONSTANT RevKeys = {"k2", "k4"}
 CONSTANT DocOf <- MCDocOf
 CONSTANT Contents = {"c1", "c2"}
 CONSTANT Configs <- CfSim
-CONSTANT Fails = {"ok", "ok", "fd", "fr"}
+CONSTANT Fails = {"ok", "fd", "fr"}
 CONSTANT FailKeys = {"k1", "k2", "k3", "k4"}
 CONSTANT OpSet = {"Get", "GetActive", "Put", "Upsert", "Remove", "Peek"}
 CONSTANT FreePut = TRUE
@@ -14,6 +14,6 @@ CONSTANT MaxOps = 10
 CONSTANT MaxSteps = 10
 CONSTANT Pool = 6
 CONSTANT SeqPrefix = 1000000
-SPECIFICATION Spec
+SPECIFICATION SimSpec
 INVARIANT BehaviourExport
 CHECK_DEADLOCK FALSE
